@@ -1,27 +1,89 @@
-import FstVerif.Gen.Tables
-import FstVerif.Spec.Format
+import FstVerif.Proofs.SpecParseBuild
+import FstVerif.Proofs.EndToEnd
 /-
-C09 — format conformance. The constants of the on-disk format are pinned: the
-values regenerated from the compiled crate on every run must equal the ones
-the format description (Spec/Format.lean) was written against. A change applied
-consistently to writer and reader (so that every round trip still works) breaks
-these obligations.
+C09 — the builder's output conforms to the documented version-3 format.
+`Spec.parseFst` (Spec/Format.lean) is a parser written from the format
+description with PINNED constants; it shares no code with the model's reader.
+Statements here; proofs in Proofs/SpecParse*.lean (the independent parser
+inverts the model's encoder, node by node and for whole files) and
+Proofs/EndToEndFile.lean (tiling through the model's own reader).
+The constants regenerated from the compiled crate on every run must equal the
+pinned ones: a change applied consistently to writer and reader breaks
+`C09_pinned_*`.
 -/
-namespace Fst
+namespace Fst.Props
+open Fst Fst.E2E
 
 theorem C09_pinned_version : Gen.VERSION = Spec.VERSION_MAX := by decide
 theorem C09_pinned_threshold : Gen.TRANS_INDEX_THRESHOLD = Spec.INDEX_THRESHOLD := by decide
 theorem C09_pinned_common_inv : Gen.COMMON_INPUTS_INV = Spec.commonInv := by decide +kernel
 
-/-- the writer's byte → index table is the inverse of the reader's index → byte
-table on the 63 indices a state byte can hold (0 = "not common") -/
+/-- the writer's byte → index table is the inverse of the reader's index → byte table -/
 theorem C09_common_tables_inverse :
     (List.range 256).all (fun b =>
       let v := (Gen.COMMON_INPUTS.getD b 0 + 1) % 256
       v == 0 || v > 255 || Gen.COMMON_INPUTS_INV.getD (v - 1) 0 == b) = true := by decide +kernel
 
-/-- the empty-final sentinel parses as the documented empty final node -/
-theorem C09_sentinel (v : Nat) (a : Array UInt8) :
-    (Spec.parseNode v a 0).map (fun n => (n.fin, n.fout, n.trans.length)) = some (true, 0, 0) := rfl
+/-- reading the builder's bytes by the format description alone yields version 3, the
+requested type, the key count, exactly the inserted map — and the extents of the nodes
+visited tile the body with no gaps or overlaps (`tiled = true`) -/
+theorem C09_parse (rows cols : Nat) (kvs : KV) (h : SortedKV kvs) (M : Nat)
+    (hM : ∀ kv ∈ kvs, kv.2 ≤ M) (hM64 : M < 2 ^ 64) (ty : Nat) (hty : ty < 2 ^ 64)
+    (hlen : kvs.length < 2 ^ 64) :
+    ∃ s bytes, insertAll (BState.new rows cols) kvs = .ok s ∧ s.fileBytes ty = .ok bytes ∧
+      (bytes.length ≤ 2 ^ 64 → Spec.parseFst bytes = some ⟨3, ty, kvs.length, kvs, true⟩) :=
+  spec_parseFst_build rows cols kvs h M hM hM64 ty hty hlen
 
-end Fst
+theorem C09_parse_set (rows cols : Nat) (ks : List Key) (h : SortedKeysLe ks)
+    (ty : Nat) (hty : ty < 2 ^ 64) (hlen : (dedupKeys ks).length < 2 ^ 64) :
+    ∃ s bytes, addAll (BState.new rows cols) ks = .ok s ∧ s.fileBytes ty = .ok bytes ∧
+      (bytes.length ≤ 2 ^ 64 →
+        Spec.parseFst bytes = some ⟨3, ty, (dedupKeys ks).length, zeroKV (dedupKeys ks), true⟩) :=
+  spec_parseFst_build_set rows cols ks h ty hty hlen
+
+/-- every node parses under the documented layouts: the independent parser returns exactly
+the node that was encoded, with its extent -/
+theorem C09_node (v : Nat) (n : BNode) (lastAddr start : Nat) (enc pre post : List UInt8)
+    (hv : 2 ≤ v ∨ n.trans.length ≤ Gen.TRANS_INDEX_THRESHOLD)
+    (wf : WFNode n lastAddr start) (henc : compileNode n lastAddr start = some enc)
+    (hpre : pre.length = start) :
+    ∃ sn, Spec.parseNode v (pre ++ enc ++ post).toArray (start + enc.length - 1) = some sn ∧
+      sn.fin = n.fin ∧ sn.fout = n.fout ∧
+      sn.trans = n.trans.map (fun t => (t.inp, t.out, t.addr)) ∧
+      sn.first = start ∧ sn.last = start + enc.length - 1 :=
+  spec_parseNode_roundtrip v n lastAddr start enc pre post hv wf henc hpre _ rfl _ rfl
+
+/-- tiling and targets, through the model's own reader: first node at 16, consecutive
+extents adjacent, last node ends right before the footer, every transition target is 0
+(the shared empty-final sentinel) or an earlier node -/
+theorem C09_tiling (rows cols ty : Nat) (kvs : KV) (hs : SortedKV kvs)
+    (hv : ∀ kv ∈ kvs, kv.2 < 2^64) :
+    ∃ s s' root, insertAll (BState.new rows cols) kvs = .ok s ∧ s.finish = .ok (s', root) ∧
+      s.fileBytes ty = .ok (fileOf ty s' root) ∧
+      (fileOf ty s' root).length = s'.count + 20 ∧
+      ((fileOf ty s' root).length < 2^64 →
+        (∀ e ∈ s'.out.reverse.head?, firstByte e = 16) ∧
+        (∀ pre e1 e2 post, s'.out.reverse = pre ++ e1 :: e2 :: post →
+          firstByte e2 = e1.addr + 1) ∧
+        (∀ e ∈ s'.out.reverse.getLast?, e.addr = s'.count - 1) ∧
+        (∀ e ∈ s'.out, 1 ≤ e.size ∧ 16 ≤ firstByte e ∧ e.addr < s'.count) ∧
+        (∀ e ∈ s'.out, ∃ rn, nodeNew 3 (Src.ofList (fileOf ty s' root)) e.addr = some rn ∧
+          rn.start = e.addr ∧ rn.end_ = firstByte e ∧
+          rn.toBNode (Src.ofList (fileOf ty s' root)) = some e.node) ∧
+        (∀ e ∈ s'.out, ∀ t ∈ e.node.trans,
+          t.addr = 0 ∨ ∃ e' ∈ s'.out, e'.addr = t.addr ∧ e'.addr < e.addr)) :=
+  e2e_tiling rows cols ty kvs hs hv
+
+/-- the layout of the complete file: header, nodes in emission order, key count, root
+address, masked CRC-32C of everything before it -/
+theorem C09_file_layout (ty : Nat) (s' : BState) (root : Nat) :
+    fileOf ty s' root =
+      bodyBytes ty s' root ++ u32le (crcOf (bodyBytes ty s' root)) := by rfl
+
+/-- the root is the empty-final sentinel with nothing emitted, or the node emitted last -/
+theorem C09_root {s s' : BState} {root : Nat} (hr : Reachable s) (hf : s.finish = .ok (s', root)) :
+    (root = 0 ∧ s'.out = [] ∧ s'.count = 16) ∨
+    (∃ e rest, s'.out = e :: rest ∧ e.addr = root ∧ root = s'.count - 1 ∧ 16 ≤ root) :=
+  finish_root hr hf
+
+end Fst.Props
